@@ -17,6 +17,8 @@
  *   wchunk=<fd>:<seed>:<max> every write on fd accepts <= 1+prng%max bytes
  *   rchunk=<seed>:<max>      every script read delivers <= 1+prng%max bytes
  *   hint=<n>                 size reported by statx/fstat for the script
+ *   ftype=<fifo|chr>         file type reported by stat/statx/fstat for the script (size 0),
+ *                            lseek on it fails with ESPIPE: the script arrives through a pipe
  *   eof=<k>                  script content is cut after k bytes
  *   flip=<off>:<hex>         stored byte at <off> is replaced by <hex> bytes
  *   w=<fd>:<n>:<act>         rule for the n-th write call on fd (0-based)
@@ -50,6 +52,7 @@
 #include <stdlib.h>
 #include <string.h>
 #include <sys/stat.h>
+#include <sys/sysmacros.h>
 #include <sys/syscall.h>
 #include <sys/types.h>
 #include <sys/uio.h>
@@ -104,6 +107,7 @@ static int g_rpersist = 0, g_rpending = 0, g_rpending_persist = 0;
 static unsigned long long g_rchunk_state = 0; static long g_rchunk_max = 0;
 
 static long g_hint = -1, g_eof = -1;
+static int g_ftype = 0; /* 0 regular, 1 fifo, 2 character device */
 static long g_flip_off = -1; static unsigned char g_flip_bytes[16]; static int g_flip_len = 0;
 static int g_virtual = 0; /* serve script reads from a private buffer */
 
@@ -205,6 +209,8 @@ static void plan_init(void) {
             g_rchunk_max = parse_long(&p); if (g_rchunk_max >= 1) g_virtual = 1;
         }
         else if (starts(p, "hint=")) { p += 5; g_hint = parse_long(&p); }
+        else if (starts(p, "ftype=fifo")) { p += 10; g_ftype = 1; }
+        else if (starts(p, "ftype=chr")) { p += 9; g_ftype = 2; }
         else if (starts(p, "eof=")) { p += 4; g_eof = parse_long(&p); g_virtual = 1; }
         else if (starts(p, "flip=")) {
             p += 5; g_flip_off = parse_long(&p); if (*p == ':') p++;
@@ -617,13 +623,29 @@ int statx(int dirfd, const char *path, int flags, unsigned int mask, struct stat
     if (path[0] == 0 && (flags & AT_EMPTY_PATH) && dirfd >= 0 && dirfd < MAX_FDS && g_is_script[dirfd]) script = 1;
     if (!script && g_main_started && path[0] != 0)
         log_event('s', -1, 0, r, e, "-", (const unsigned char *)path, (long)strlen(path));
+    if (!script && r == 0 && g_ftype && g_have_ino) {
+        /* a stat by path that lands on the script: stx_ino at 32, stx_dev_major/minor at 136/140 */
+        uint64_t ino; uint32_t maj, min;
+        memcpy(&ino, (unsigned char *)buf + 32, sizeof ino);
+        memcpy(&maj, (unsigned char *)buf + 136, sizeof maj);
+        memcpy(&min, (unsigned char *)buf + 140, sizeof min);
+        if (ino == g_ino && (unsigned long long)makedev(maj, min) == g_dev) script = 2;
+    }
     if (script) {
         if (r == 0 && g_hint >= 0) {
             /* stx_size lives at byte offset 40 of struct statx */
             uint64_t v = (uint64_t)g_hint;
             memcpy((unsigned char *)buf + 40, &v, sizeof v);
         }
-        log_event('S', dirfd, 0, r, e, g_hint >= 0 ? "hint" : "-", NULL, 0);
+        if (r == 0 && g_ftype) {
+            /* stx_mode (u16) lives at byte offset 28 */
+            uint16_t m; uint64_t z = 0;
+            memcpy(&m, (unsigned char *)buf + 28, sizeof m);
+            m = (uint16_t)((m & 07777) | (g_ftype == 1 ? S_IFIFO : S_IFCHR));
+            memcpy((unsigned char *)buf + 28, &m, sizeof m);
+            memcpy((unsigned char *)buf + 40, &z, sizeof z);
+        }
+        log_event('S', script == 1 ? dirfd : -1, 0, r, e, g_ftype ? "ftype" : (g_hint >= 0 ? "hint" : "-"), NULL, 0);
     }
     errno = e;
     return (int)r;
@@ -635,7 +657,8 @@ int fstat(int fd, struct stat *st) {
     int e = r < 0 ? errno : 0;
     if (fd >= 0 && fd < MAX_FDS && g_is_script[fd]) {
         if (r == 0 && g_hint >= 0) st->st_size = (off_t)g_hint;
-        log_event('S', fd, 0, r, e, g_hint >= 0 ? "hint" : "-", NULL, 0);
+        if (r == 0 && g_ftype) { st->st_mode = (st->st_mode & 07777) | (g_ftype == 1 ? S_IFIFO : S_IFCHR); st->st_size = 0; }
+        log_event('S', fd, 0, r, e, g_ftype ? "ftype" : (g_hint >= 0 ? "hint" : "-"), NULL, 0);
     }
     errno = e;
     return (int)r;
@@ -644,6 +667,7 @@ int fstat64(int fd, struct stat64 *st) { return fstat(fd, (struct stat *)st); }
 
 off_t lseek(int fd, off_t off, int whence) {
     plan_init();
+    if (fd >= 0 && fd < MAX_FDS && g_is_script[fd] && g_ftype) { errno = ESPIPE; return (off_t)-1; }
     if (fd >= 0 && fd < MAX_FDS && g_is_script[fd] && g_virtual && g_vbuf) {
         long np;
         if (whence == SEEK_SET) np = (long)off;
